@@ -188,12 +188,6 @@ impl<'data> platform::ObjectFile<'data> for File<'data> {
     }
 
     fn symbols_iter(&self) -> impl Iterator<Item = &'data SymtabEntry> {
-        for s in self.symbols.iter() {
-            let name = s.name(LE, self.symbols.strings()).unwrap();
-            // TODO: remove
-            // dbg!(String::from_utf8_lossy(name));
-        }
-
         self.symbols.iter()
     }
 
